@@ -1,6 +1,7 @@
 package main
 
 import (
+	"os"
 	"fmt"
 	"go/types"
 	"strings"
@@ -138,6 +139,11 @@ type guardRef struct {
 func (u *UnitGen) lockCheckMapWrite(fr *Frame, st *State, m ssa.Value) {
 	g, ok := fr.guardOrigin[m]
 	if !ok {
+		if t, has := fr.vals[m]; has {
+			g, ok = u.mapGuard[t.S]
+		}
+	}
+	if !ok {
 		return
 	}
 	cur := Select(u.get(st, g.lockKey, ArraySort(SInt, SInt)), g.ref)
@@ -190,6 +196,11 @@ func (u *UnitGen) get0(st *State, key string, so Sort) Term {
 func (u *UnitGen) lockCheckMapRead(fr *Frame, st *State, m ssa.Value) {
 	g, ok := fr.guardOrigin[m]
 	if !ok {
+		if t, has := fr.vals[m]; has {
+			g, ok = u.mapGuard[t.S]
+		}
+	}
+	if !ok {
 		return
 	}
 	cur := Select(u.get(st, g.lockKey, ArraySort(SInt, SInt)), g.ref)
@@ -215,5 +226,94 @@ func (u *UnitGen) checkHolds(fr *Frame, st *State, ct *Contract, env *Env, short
 			goal = Eq(cur, IntN(2))
 		}
 		u.oblige(st, "lock", fmt.Sprintf("lock:holds:%s#%d(%s)", short, ord, expr), "callee requires "+h, goal)
+	}
+}
+
+// pathOrigin: a pointer value known to have been reached from a struct with a guarded_path
+// declaration by following the first idx fields of the listed chains.
+type pathOrigin struct {
+	g      *PathGuard
+	chains [][]string
+	idx    int
+	ref    Term // the owning struct
+	lk     string
+	owner  string
+}
+
+// trackGuardedPath follows loads along declared field chains (guarded_path): when the end of a chain
+// is reached the loaded value is a map whose contents are protected by the owner's mutex; lookups,
+// ranges, updates and deletes on it then get the same lock obligations as maps stored in a
+// guarded field of the owner itself.
+func (u *UnitGen) trackGuardedPath(a *Addr, v Term) {
+	if len(u.g.specs.PathGuards) == 0 || a.local != "" || a.global != "" || a.slice != nil || len(a.path) == 0 || a.path[0].idx != nil {
+		return
+	}
+	stt, ok := a.objT.Underlying().(*types.Struct)
+	if !ok {
+		return
+	}
+	fname := stt.Field(a.path[0].field).Name()
+	if os.Getenv("GOVC_DEBUG_PATH") != "" {
+		_, has := u.termOrigin[a.ref.S]
+		fmt.Fprintf(os.Stderr, "load %s.%s ref=%s known=%v -> %s\n", shortTypeName(a.objT), fname, trunc(a.ref.S, 50), has, trunc(v.S, 50))
+	}
+	var po *pathOrigin
+	if prev, ok := u.termOrigin[a.ref.S]; ok {
+		var next [][]string
+		for _, c := range prev.chains {
+			if prev.idx < len(c) && c[prev.idx] == fname {
+				next = append(next, c)
+			}
+		}
+		if len(next) > 0 {
+			po = &pathOrigin{g: prev.g, chains: next, idx: prev.idx + 1, ref: prev.ref, lk: prev.lk, owner: prev.owner}
+		}
+	}
+	if po == nil {
+		if n, isNamed := types.Unalias(a.objT).(*types.Named); isNamed && n.Obj().Pkg() != nil {
+			for i := range u.g.specs.PathGuards {
+				g := &u.g.specs.PathGuards[i]
+				if g.Pkg != n.Obj().Pkg().Path() || g.Struct != n.Obj().Name() {
+					continue
+				}
+				var next [][]string
+				for _, c := range g.Chains {
+					if len(c) > 0 && c[0] == fname {
+						next = append(next, c)
+					}
+				}
+				if len(next) > 0 {
+					lk, _ := u.lockKey(a.objT, g.Mutex)
+					po = &pathOrigin{g: g, chains: next, idx: 1, ref: a.ref, lk: lk, owner: shortTypeName(a.objT)}
+				}
+			}
+		}
+	}
+	if po == nil {
+		return
+	}
+	if u.termOrigin == nil {
+		u.termOrigin = map[string]*pathOrigin{}
+		u.mapGuard = map[string]guardRef{}
+	}
+	u.termOrigin[v.S] = po
+	for _, c := range po.chains {
+		if po.idx == len(c) {
+			u.mapGuard[v.S] = guardRef{po.lk, po.ref, po.owner + "." + strings.Join(c, "."), po.g.Mutex}
+		}
+	}
+}
+
+// inheritGuardedPath: a value computed from others (the merged result of an inlined getter) keeps
+// the path origin of its sources.
+func (u *UnitGen) inheritGuardedPath(dst Term, srcs ...Term) {
+	for _, s := range srcs {
+		if po, ok := u.termOrigin[s.S]; ok {
+			u.termOrigin[dst.S] = po
+			if g, ok := u.mapGuard[s.S]; ok {
+				u.mapGuard[dst.S] = g
+			}
+			return
+		}
 	}
 }
